@@ -529,6 +529,8 @@ ENTRY = {"cp_mode_dot_form": "tensorly.cp_tensor.cp_mode_dot", "cp_flip_sign_for
          "svd_decompress_parafac2_tensor": "tensorly.preprocessing.svd_decompress_parafac2_tensor",
          "svd_compress_decompress": "tensorly.preprocessing.svd_decompress_parafac2_tensor"}
 PRED.update(R5.PRED); ENTRY.update(R5.ENTRY)
+from harness.props import C04_r7 as R7
+PRED.update(R7.PRED); ENTRY.update(R7.ENTRY)
 
 
 # ----------------------------------------------------------------------------- generators
@@ -928,10 +930,57 @@ def run_shards(chk, cases, shard=340):
     return failing, n_eval, still
 
 
+# ----------------------------------------------------------------------------- Print Assumptions, asked once
+def union_print_assumptions(prop, names):
+    """Print Assumptions asked ONCE for a term that mentions every property theorem (one walk through the Reals library instead of
+    one per theorem).  The answer is the union of the theorems' axioms: when it contains nothing but standard-library axioms every
+    theorem is clean and each is reported with that union (an over-approximation of its own list).  Otherwise -- or when the
+    question cannot be asked (a theorem is missing from the compiled file) -- the per-theorem question of common.print_assumptions
+    is asked instead.  Same cache discipline as common.print_assumptions (keyed by the compiled objects)."""
+    import os, re, json, shutil, subprocess
+    cache = os.path.join(C.BUILD, "pa_cache", f"{prop}_union.json")
+    stamp = C._vo_stamp() + ":" + ",".join(names)
+    try:
+        c = json.load(open(cache))
+        if c.get("stamp") == stamp and not os.environ.get("VERIF_NO_PA_CACHE"):
+            return c["res"], "(cached: compiled objects unchanged since the last Print Assumptions run)"
+    except Exception:  # noqa
+        pass
+    d = os.path.join(C.BUILD, "pa", f"{os.getpid()}_{prop}_union"); shutil.rmtree(d, ignore_errors=True); os.makedirs(d, exist_ok=True)
+    fn = os.path.join(d, f"PAU_{prop}.v")
+    with open(fn, "w") as f:
+        f.write(f"From TLV Require Import Props.{prop}.\n")
+        f.write("Definition all_property_theorems : True :=\n" + "".join(f"  let _ := @{n} in\n" for n in names) + "  I.\n")
+        f.write('Goal True. idtac "@@BEGIN". exact I. Qed.\nPrint Assumptions all_property_theorems.\nGoal True. idtac "@@END". exact I. Qed.\n')
+    r = subprocess.run(["timeout", "600", "coqc", "-R", os.path.join(C.COQ, "theories"), "TLV", fn], capture_output=True, text=True, cwd=d)
+    shutil.rmtree(d, ignore_errors=True)
+    if r.returncode == 0 and "@@BEGIN" in r.stdout and "@@END" in r.stdout:
+        body = r.stdout.split("@@BEGIN", 1)[1].split("@@END")[0]
+        res = None
+        if "Closed under the global context" in body:
+            res = {n: [] for n in names}
+        else:
+            axs = sorted(a for a in set(re.findall(r"^([A-Za-z_][\w.']*)\s*:", body, re.M)) if a not in ("Axioms", "Variables", "Hypotheses"))
+            if axs and not C.own_axioms(axs):
+                res = {n: list(axs) for n in names}
+        if res is not None:
+            os.makedirs(os.path.dirname(cache), exist_ok=True)
+            json.dump({"stamp": stamp, "res": res}, open(cache, "w"))
+            return res, r.stdout
+    return _common_print_assumptions(prop, names)
+
+
+_common_print_assumptions = C.print_assumptions
+
+
 # ----------------------------------------------------------------------------- the run
 def run(chk):
     rng = random.Random(chk.seed)
-    chk.build_proofs()
+    C.print_assumptions = union_print_assumptions
+    try:
+        chk.build_proofs()
+    finally:
+        C.print_assumptions = _common_print_assumptions
     C.reset_backends()
     source_tie(chk)
     import tensorly as tl
@@ -1156,6 +1205,8 @@ def run(chk):
     run_other_formats(chk, rng, judge, mult, emit)
     # --- (5) round 5: validating constructors, heap model of the copy flag, documented meaning of max_rank
     R5.run_round5(chk, rng, judge, mult, emit)
+    # --- (6) round 7: complex / float32 cores, mixed-height compress -> fit -> decompress, every None pattern of the loading list
+    R7.run_round7(chk, rng, judge, mult, emit)
 
     failing, n_eval, broken = run_shards(chk, cases)
     chk.checker_cmds.append("coqc (vm_compute) on generated build/cases/C04/*.v: Corr.C04.failing")
@@ -1165,7 +1216,8 @@ def run(chk):
                        "each tensor carries one degenerate feature (zero column, zero-sum column, negative weight, zero weight, zero core slice, rank 1, all positive, none); every target mode (+1 invalid) "
                        "x both summary functions for cp_flip_sign; every mode (+1 invalid) x {matrix, vector, vector keep_dim, mismatching operands} x copy for the CP and Tucker mode products, each followed by a "
                        "second product on the same operand (copy=True) or on the result (copy=False); operand forms {CPTensor object, plain tuple} x {weights, None} x copy; "
-                       "pad_tt_rank on TT, TR and TT-matrix cores of order 1-4 x n_padding 1-3 x both pad_boundaries values; svd_compress thresholds {0, 1e-3, .25, .5, 1} x max_rank {None, 1, n_cols, n_cols+1}; "
+                       "pad_tt_rank on TT, TR and TT-matrix cores of order 1-4 x n_padding 1-3 x both pad_boundaries values, incl. complex128 / complex64 cores with Gaussian-integer entries (exact) and float32 cores; "
+                       "compress -> fit -> decompress on slice lists of mixed heights in every order (ST, TS, STT, TSS, STS, TST, STST, TSTS, ...) and svd_decompress with every None pattern of 2-3 loadings; svd_compress thresholds {0, 1e-3, .25, .5, 1} x max_rank {None, 1, n_cols, n_cols+1}; "
                        "distinct key = (function, shapes, feature, options)")
     for b in broken:
         chk.broken.append({"what": "correspondence corr:C04 shard not evaluated", "detail": b})
